@@ -143,7 +143,11 @@ def session(ctx, side="server", k=4, first=()):
             ws = await sess.ws_connect("http://x/ws", heartbeat=heartbeat, timeout=aiohttp.ClientWSTimeout(ws_close=close_timeout),
                                        compress=0)
             state["ws"] = ws
-            await receive_loop(ws)
+            try:
+                await receive_loop(ws)
+            finally:
+                # what `async with session.ws_connect(...)` does on the way out, also after an error
+                await ws.close()
 
         a = asyncio.Task(client_main(), loop=loop)
         state["a_task"] = a
@@ -211,6 +215,9 @@ def session(ctx, side="server", k=4, first=()):
                         ("peer", "garbage"), ("peer", "drop")]
             if ponging["on"] and heartbeat:
                 enabled.append(("peer", "unresponsive"))
+            if heartbeat:
+                # a data frame that arrives in the very loop iteration in which the next timer is due
+                enabled.append(("peer", "text@timer"))
         enabled += [("app", "close"), ("app", "send"), ("advance", 1), ("advance", 5), ("advance", 20)]
         if not state["a_done"]:
             enabled.append(("app", "cancel-receiver"))
@@ -222,6 +229,8 @@ def session(ctx, side="server", k=4, first=()):
             try:
                 if op[1] == "text":
                     proto.data_received(frame(1, b"hi", masked=peer_masked))
+                elif op[1] == "text@timer":
+                    loop.io_at_next_timer(lambda: proto.data_received(frame(1, b"hi", masked=peer_masked)), horizon=30.0)
                 elif op[1] == "ping":
                     proto.data_received(frame(9, b"p", masked=peer_masked))
                 elif op[1].startswith("close"):
@@ -264,6 +273,13 @@ def session(ctx, side="server", k=4, first=()):
     if not dropped and not tr.closed:
         # give the session the chance to finish by itself first (heartbeat / close timeout)
         advance(close_timeout + 1)
+    if heartbeat and not dropped and not tr.closed and not state["a_done"]:
+        # the peer goes silent without closing: with a heartbeat configured the session has to notice
+        # by itself (ping, no pong within heartbeat/2) - that is what keeps receive() from blocking forever
+        ponging["on"] = False
+        advance(3 * heartbeat + 2)
+        if not tr.closed:
+            return fail("silent-peer-not-detected-by-heartbeat")
     if not tr.closed and not dropped:
         proto.connection_lost(None)
         tr.closed = True
@@ -292,7 +308,7 @@ def session(ctx, side="server", k=4, first=()):
     # close code: peer's code on a clean handshake, 1006 on abnormal ends
     cc = ws.close_code
     trace2 = [t[:2] for t in trace]
-    sig = [tuple(t) for t in trace2 if t[0] == "peer" and t[1] != "text" and t[1] != "ping" or t[0] == "app" and t[1] != "send"]
+    sig = [tuple(t) for t in trace2 if t[0] == "peer" and t[1] not in ("text", "ping", "text@timer") or t[0] == "app" and t[1] != "send"]
     cancelled = ("app", "cancel-receiver") in [tuple(t) for t in trace2]
     unresponsive = ("peer", "unresponsive") in [tuple(t) for t in trace2]
     if sig and sig[0][0] == "peer" and sig[0][1].startswith("close") and not cancelled and not unresponsive:
@@ -347,5 +363,5 @@ REQUIRED_OUTCOMES = ("server:cc=1000", "client:cc=1000", "server:cc=1006", "clie
 
 def bounds(tier):
     return {"script": "k=3 (quick) / 4 steps; first step each of 10 operations (one job each), later steps solver-chosen from the enabled ones",
-            "alphabet": "peer: text, ping, close(1000), close(4001), bad opcode, drop; app: close(), send_str(), cancel the receiving task; advance 1/5/20 s",
+            "alphabet": "peer: text, text arriving in the loop iteration of the next due timer, ping, close(1000), close(4001), bad opcode, drop, stop answering pings; each event optionally in the same loop iteration as the next one; app: close(), send_str(), cancel the receiving task; advance 1/5/20 s",
             "config": "heartbeat in {None, 4 s}, close timeout in {2 s, 10 s}; both WebSocketResponse and ClientWebSocketResponse"}
